@@ -28,13 +28,14 @@ def _mk_log_factor(fkind, Rphi, Rf, cache):
     return ob
 
 
-def _mk_log_cond(kind, Rq):
-    """integrate_log_conditional(q): expectation of ln p(y|x) under ANY Gaussian q over (y, x)"""
+def _mk_log_cond(kind, Rq, paired=False):
+    """integrate_log_conditional(q): expectation of ln p(y|x) under ANY Gaussian q over (y, x); paired: R conditionals with R
+    densities, component by component"""
     def ob(w):
         xp = w.xp
         Dy = "Dy"
         Dx = "Dy" if kind.startswith("identity") else "Dx"
-        h = SP.gen_cond_handle(w, kind, "c", 1, Dy, Dx)
+        h = SP.gen_cond_handle(w, kind, "c", Rq if paired else 1, Dy, Dx)
         P = SP.mods()["pdf"]
         B = [Rq] if Rq != 1 else [1]
         g = w.block_gaussian("q", B, [Dy, Dx])
@@ -42,6 +43,8 @@ def _mk_log_cond(kind, Rq):
         val = h.call("integrate_log_conditional", q)                     # REAL
         dy = w.size(Dy)
         eye = xp.eye(dy)[None]
+        if paired:
+            eye = xp.tile(eye, (w.size(Rq), 1, 1))
         if h.identity:
             A = xp.concatenate([eye, -eye], axis=2)
             a = None
@@ -209,6 +212,9 @@ def _register():
                    sorts=(["R"] if Rq != 1 else []) + ["Dy"] + ([] if kind.startswith("identity") else ["Dx"]) + (["Du"] if kind == "nn" else []),
                    funcs=[f"conditional.{cls}.integrate_log_conditional", "measure.GaussianMeasure.integrate_general_quadratic_inner",
                           "measure.GaussianMeasure._expectation_general_quadratic_inner"], axioms=AX)(_mk_log_cond(kind, Rq))
+        if kind in ("full", "diag"):
+            REG.ob(f"{cls}.integrate_log_conditional/paired-R", sorts=["R", "Dy"] + ([] if kind.startswith("identity") else ["Dx"]),
+                   funcs=[f"conditional.{cls}.integrate_log_conditional"], axioms=AX)(_mk_log_cond(kind, "R", True))
         for Rx in ("N", 1):
             for evaluated in (False, True):
                 REG.ob(f"{cls}.integrate_log_conditional_y/Rx={Rx}/{'evaluated' if evaluated else 'callable'}",
